@@ -285,12 +285,26 @@ fn fresh_dir(tag: &str) -> String {
 fn reopen_monitor(rep: &mut Rep, seed: u64, n_hist: usize) {
     let mut rng = rng_for(seed, "c16-reopen");
     let mut counter = 0u64;
-    let path_styles = ["plain", "nested/deeper/db", "with space", "unicodé-пут-路径"];
+    let path_styles = ["plain", "nested/deeper/db", "with space", "unicodé-пут-路径", "relative:rel-db", "relative:rel/nested/db", "relative:./dot/db"];
+    // relative locations are resolved against the working directory: a scratch one, so that nothing is left behind
+    let cwd = fresh_dir("cwd");
+    let _ = std::fs::create_dir_all(&cwd);
+    if std::env::set_current_dir(&cwd).is_err() {
+        rep.inconclusive("cannot change into a scratch working directory".to_string());
+    }
     for h in 0..n_hist {
         let depth = [3usize, 5, 8, 20, 4, 20][h % 6];
         let variant = h % 6;
         let base = fresh_dir(&format!("reopen{h}"));
-        let path = format!("{}/{}", base, path_styles[h % path_styles.len()]);
+        let style = path_styles[h % path_styles.len()];
+        // (a relative location that does not exist yet, as a user would write it in a configuration file)
+        let path = match style.strip_prefix("relative:") {
+            Some(rel) => {
+                let (head, tail) = rel.strip_prefix("./").map(|t| ("./", t)).unwrap_or(("", rel));
+                format!("{head}h{h}-{tail}")
+            }
+            None => format!("{}/{}", base, style),
+        };
         let with_reset = h % 5 == 4;
         let ops = gen_history(&mut rng, depth, if depth == 20 { 24 } else { 40 }, with_reset, &mut counter);
         let mut m = Model::new(depth, poseidon_h, Fr::from(0u64));
@@ -335,6 +349,12 @@ fn reopen_monitor(rep: &mut Rep, seed: u64, n_hist: usize) {
                     break;
                 }
                 slot = None;
+                // the database must be where it was configured to be
+                if !since_reset && !std::path::Path::new(&path).exists() {
+                    rep.violation("location:nothing-at-the-configured-path-after-flush", json!({"path_style": style, "path": path, "variant": variant}));
+                    diverged = true;
+                    break;
+                }
                 slot = match open(depth, &path, variant) {
                     Ok(r) => Some(r),
                     Err(e) => {
